@@ -225,9 +225,29 @@ UnitsPtr Model::takeUnits(const std::string &name)
 bool Model::replaceUnits(size_t index, const UnitsPtr &units)
 {
     bool status = false;
+    if ((units == nullptr) || (index >= pFunc()->mUnits.size())) {
+        return false;
+    }
+    if (units == pFunc()->mUnits.at(index)) {
+        return true;
+    }
+
+    // The new units move here from wherever they were.
+    auto thisModel = shared_from_this();
+    if (units->hasParent()) {
+        if (units->parent() == thisModel) {
+            // Already units of this model: that is not a replacement.
+            return false;
+        }
+        auto otherParent = std::dynamic_pointer_cast<Model>(units->parent());
+        if (otherParent != nullptr) {
+            otherParent->removeUnits(units);
+        }
+    }
+
     if (removeUnits(index)) {
         pFunc()->mUnits.insert(pFunc()->mUnits.begin() + ptrdiff_t(index), units);
-        units->pFunc()->setParent(shared_from_this());
+        units->pFunc()->setParent(thisModel);
         status = true;
     }
 
